@@ -162,7 +162,7 @@ TOP = OBJ({
         "thread": HEX, "dialog_mode": HEX, "abort_cause": HEX, "module": STR, "message": STR, "signature_string": STR,
         "backtrace": STR, "message2": STR}))}),
     "mac_boot_args": STR,
-    "soft_errors": ARR(ANY),
+    "soft_errors": ARR(OBJ({}, any_key=ANY)),
 })
 
 # names the transcription accepts although the pinned json-schema.md did not list them before the
